@@ -10,6 +10,7 @@
 //	jobsh http transport             refused / timeout / cancelled context
 //	jobsh http stream                previous response's body kept open by the server (stalled / trickle); next execution under another context (round3.go)
 //	jobsh shell nostart              executions that never start the shell (ctx done, shell missing / not executable) between ones that run (round3.go)
+//	jobsh shell background           the shell exits while a background process keeps stdout/stderr open for 0.5 .. 4 s and writes late (round3.go)
 //	jobsh shell exits                exit codes 0..255, signal, stale-status sequence on one object
 //	jobsh shell sizes                output sizes 0 .. 1 MiB on stdout and stderr
 //	jobsh func                       FunctionJob results / errors / zeroing
@@ -48,7 +49,7 @@ func atoi(s string) int {
 }
 
 func usage() {
-	fmt.Fprintln(os.Stderr, "usage: jobsh isolated stress G N SEED | isolated hold | isolated sched MS | http synthetic|server|transport|stream | shell exits|sizes|nostart | func | cancel | overlap | conc KIND ROUNDS | leak N")
+	fmt.Fprintln(os.Stderr, "usage: jobsh isolated stress G N SEED | isolated hold | isolated sched MS | http synthetic|server|transport|stream | shell exits|sizes|nostart|background | func | cancel | overlap | conc KIND ROUNDS | leak N")
 	os.Exit(2)
 }
 
@@ -72,6 +73,8 @@ func main() {
 		httpTransport()
 	case a[0] == "http" && len(a) == 2 && a[1] == "stream":
 		httpStream()
+	case a[0] == "shell" && len(a) == 2 && a[1] == "background":
+		shellBackground()
 	case a[0] == "shell" && len(a) == 2 && a[1] == "nostart":
 		shellNoStart()
 	case a[0] == "shell" && len(a) == 2 && a[1] == "exits":
